@@ -46,6 +46,7 @@ def run_installation(job):
     A = pyairtouch
     bad = []
     n = 0
+    seen = set()
     timers_reported = {a: {"on": cc.timer_state(None), "off": cc.timer_state(None)} for a in w.console.state["timer"]}
 
     def judge(rec, frames, expect_kind, matcher, label, sig, ext=False):
@@ -73,6 +74,7 @@ def run_installation(job):
         if kind != expect_kind:
             bad.append((sig + ":kind", f"{label}: frame is a {kind}, expected {expect_kind}"))
             return
+        seen.add((label, fr.data))
         p = matcher(reading)
         if p:
             bad.append((sig, f"{label}: {p} [frame data {fr.data.hex()}]"))
@@ -168,11 +170,11 @@ def run_installation(job):
     # the only frames ever seen must be the ones accounted for above (nothing unsolicited from the client)
     if w.loop.exc_reports:
         bad.append((f"at{gen}:loop-exception", f"{w.loop.exc_reports[:1]}"))
-    return n, bad
+    return n, bad, len(seen)
 
 
 def replay_input(rp):
-    n, bad = run_installation((rp["gen"], rp["variant"], rp["full"]))
+    n, bad, _k = run_installation((rp["gen"], rp["variant"], rp["full"]))
     for sig, msg in bad:
         if sig == rp["sig"]:
             return msg
@@ -191,14 +193,16 @@ def run(tier, seed, part=None):
     res = explorer.pool().map(run_installation, jobs, chunksize=1)
     total = 0
     sigs = set()
-    for job, (n, bad) in zip(jobs, res):
+    judged = 0
+    for job, (n, bad, k) in zip(jobs, res):
         total += n
-        chk.parts.append({"scenario": f"at{job[0]}/{job[1]}", "calls": n, "full_grids": job[2]})
+        judged += k
+        chk.parts.append({"scenario": f"at{job[0]}/{job[1]}", "calls": n, "frames_read_and_compared": k, "full_grids": job[2]})
         for sig, msg in bad:
             chk.violation(sig, msg, {"kind": "input", "module": "pvmc.props.c04", "gen": job[0], "variant": job[1], "full": job[2], "sig": sig})
     chk.samples += [{"call": "ac0.set_target_temperature(t) for t in 0.00..45.00 step 0.05", "gen": 4},
                     {"call": "zone15.set_damper_percentage(p) for p in 0..100", "gen": 5}]
-    return chk.finish({"evaluations": total, "distinct_nontrivial": total, "exhaustive": True,
+    return chk.finish({"evaluations": total, "distinct_nontrivial": judged, "exhaustive": True,
                        "rule": "one evaluation = one public API call on a real initialised client (AC 0..3 / 0..15, zones 0..15, every "
-                               "enum argument, 0.05 degC grid, damper 0..100, timers); each is distinct by (entity, call, argument); "
-                               "non-trivial = the call was accepted and produced a frame that the reference codec read"})
+                               "enum argument, 0.05 degC grid, damper 0..100, timers); distinct_nontrivial = number of distinct (call, frame payload) "
+                               "pairs, counted with a set, where the call was accepted and its frame was read by the reference codec and compared with the intent"})
